@@ -80,11 +80,6 @@
         #[verifier::external_body]
         fn try_from_node(node: Node<'n, 'n>, doc: &mut RustDocument) -> (res: WriterResult<Self>) { unimplemented!() }
     }
-    impl<'n> TryFromNode<'n> for ElementProps {
-        type Error = WriterError;
-        #[verifier::external_body]
-        fn try_from_node(node: Node<'n, 'n>, doc: &mut RustDocument) -> (res: WriterResult<Self>) { unimplemented!() }
-    }
 //# section: simple-callees
     // callees of SimpleProps::try_from_node that are declared only (list / union types are outside the subset; as_rust_type is unit F)
     #[verifier::external_body]
